@@ -1,10 +1,15 @@
 """C06 - class constructors denote exactly the requested character sets (DESIGN 8/C06).
 
+G9 (proved, VCs over all arguments): AnyFrom / AnyButFrom / AnyBetween / AnyButBetween raise exactly the documented
+exceptions and hand `[...]` / `[^...]` with the requested characters, each special one escaped, to __Class.__init__.
 F (complete): every zero-argument Any*/AnyBut* class and every token - membership of EVERY code point against the
 documented set, complement law, ~A == AnyBut*.  B2 (bounded, labelled): the parametric constructors AnyFrom / AnyButFrom /
 AnyBetween / AnyButBetween over the distinguished characters (bracket and regex metacharacters, letters, digits, control
 characters, a non-ASCII letter), token instances as arguments, invalid arguments, under several hash seeds."""
 from . import _cls
+from .. import vcrun
+
+G9 = ["pregex.core.classes." + c + ".__init__" for c in ("AnyBetween", "AnyButBetween", "AnyFrom", "AnyButFrom")]
 
 LEVEL = "exploration"
 
@@ -14,6 +19,11 @@ def run(rep, tier):
     _cls.run_bounded(rep, tier, "constructors", "B2",
                      "AnyFrom(c..) matches exactly the given characters, AnyBetween(a,b) exactly the code points a..b (negated "
                      "forms the complement); start >= end raises InvalidRangeException; the pattern compiles")
+    # G9 (VCs, all arguments): the documented exceptions iff their conditions (single character / token, start < end by code
+    # point, at least one character) and the exact bracket text handed to __Class.__init__ (every special character escaped)
+    vcrun.run_functions(rep, G9, tier)
+    rep.assumptions.append("G9 pins the bracket text given to __Class.__init__; what __process / re make of that text is the "
+                           "bounded part (B2) and the complete part over named classes (F)")
     rep.trusted += ["R7 bracket expressions", "specs/charsets.py (documented sets / Unicode blocks)"]
     rep.assumptions += ["code points that only the Unicode-aware shorthands \\d \\s \\w add are left unspecified (masked)",
                         "'for any characters at all' is sampled by the distinguished characters and their neighbours (bounded)"]
